@@ -221,4 +221,13 @@ def rule_stale_queue(ctx: Ctx):
     c04.rule_clear(ctx, rule="C14.first")
 
 
-RULES = [rule_flow, rule_collect, rule_none, rule_first, rule_every_callback, rule_stale_queue]
+def rule_own_event(ctx: Ctx):
+    """C14.collect: which before/on callbacks contribute is decided by the event being processed; a payload keyword named
+    like a built-in (`event=...`) must not replace it (the same-event filter would pick another event's callbacks)."""
+    from . import c07
+
+    c07.rule_reserved(ctx, rule="C14.collect")
+    c07.rule_layer(ctx, rule="C14.collect")
+
+
+RULES = [rule_flow, rule_collect, rule_none, rule_first, rule_every_callback, rule_stale_queue, rule_own_event]
